@@ -288,8 +288,8 @@ func spec_cand(l *LALR1, tr Transistor, a *Action, sy int) bool {
 //@ props_tagged_only C03 C02
 //@ order_only
 // wiring of the digraph (C03): Read = digraph(nodes = keys of DRSet, relation = reads, base = DR)
-//@ before_stmt [C03,C02] "R := lalr.CalcAllReadRelations()" true
-//@ before_stmt [C03,C02] "Digraph(X, R, lalr.DRSet, &lalr.ReadSet)" true
+//@ before_stmt [C03,C02,C14] "R := lalr.CalcAllReadRelations()" true
+//@ before_stmt [C03,C02,C14] "Digraph(X, R, lalr.DRSet, &lalr.ReadSet)" true
 //@ loop 0: order_assumed the order of X only changes Digraph's traversal order; ReadSet is used as a set per key (Digraph-spec hypothesis, bounded)
 
 //@ func (*LALR1).CalcFollowSet
@@ -297,8 +297,8 @@ func spec_cand(l *LALR1, tr Transistor, a *Action, sy int) bool {
 //@ props_tagged_only C03 C02
 //@ order_only
 // wiring of the digraph (C03): Follow = digraph(nodes = keys of ReadSet, relation = includes, base = Read)
-//@ before_stmt [C03,C02] "R := lalr.CaclIncludes()" true
-//@ before_stmt [C03,C02] "Digraph(X, R, lalr.ReadSet, &lalr.FollowSet)" true
+//@ before_stmt [C03,C02,C14] "R := lalr.CaclIncludes()" true
+//@ before_stmt [C03,C02,C14] "Digraph(X, R, lalr.ReadSet, &lalr.FollowSet)" true
 //@ loop 0: order_assumed the order of X only changes Digraph's traversal order; FollowSet is used as a set per key (Digraph-spec hypothesis, bounded)
 
 //@ func (*LALR1).CalcAllReadRelations
